@@ -1,15 +1,28 @@
 package main
 
-import "github.com/smhanov/syzgydb"
+import (
+	"bytes"
+	"fmt"
+	"os"
+	"path/filepath"
+	"strings"
 
-// crash-image capture (C07); filled in by c07.go
+	"github.com/smhanov/syzgydb"
+)
+
+// C07: crash images. After every mutating operation the file as it was after each storage step
+// (captured through the verif hook) is recovered by the real OpenFile/NewCollection on a scratch
+// copy and by the model; the recovered state must be old-or-new for the affected document, intact
+// for the others, well-formed, and must stay so under a continuation + reopen.
 type c07ctx struct {
-	o   *Opts
-	res *Result
+	o    *Opts
+	res  *Result
+	drv2 *Driver
+	n    int
 }
 
-func newC07(o *Opts, res *Result) *c07ctx { return &c07ctx{o: o, res: res} }
-func (c *c07ctx) finish()               {}
+func newC07(o *Opts, res *Result) *c07ctx { return &c07ctx{o: o, res: res, drv2: StartDriver()} }
+func (c *c07ctx) finish()               { c.drv2.Close() }
 
 func (s *storeRun) captureStart() {
 	if s.c07 == nil {
@@ -23,10 +36,161 @@ func (s *storeRun) captureStart() {
 		}
 	})
 }
+
 func (s *storeRun) captureEnd() {
 	if s.c07 == nil {
 		return
 	}
 	syzgydb.VerifSetPointHook(nil)
 }
-func (s *storeRun) afterMutation(op Op, prev *specDoc) {}
+
+func docEq(d *syzgydb.Document, sd *specDoc, r *RealColl) bool {
+	return d != nil && sd != nil && bytes.Equal(d.Metadata, sd.meta) && eqU(r.Codes(d.Vector), sd.codes)
+}
+
+// afterMutation runs the crash-image checks for the operation just executed. prev is the affected
+// document's state before the operation (nil = not live); s.spec already holds the new state.
+func (s *storeRun) afterMutation(op Op, prev *specDoc) {
+	c := s.c07
+	if c == nil || s.dead {
+		return
+	}
+	// tie: the model's crash images are the implementation's
+	m := s.drv.Send("images")
+	var parts []string
+	for i, img := range s.images {
+		parts = append(parts, fmt.Sprintf("%s:%d:%d", s.imgTags[i], len(img), fnv1a(img)))
+	}
+	want := "img -"
+	if len(parts) > 0 {
+		want = "img " + strings.Join(parts, ";")
+	}
+	if m != want {
+		s.tie("crash images of "+op.K, m, want)
+		return
+	}
+	now := s.spec[op.ID] // nil when removed
+	for k, img := range s.images {
+		c.n++
+		s.res.Evaluations++
+		s.res.Hit("crash-after:" + s.imgTags[k])
+		s.res.DistinctCase(fmt.Sprintf("%d/%d/%d", s.scen, len(s.ops), k))
+		where := fmt.Sprintf("crash after step %d (%s) of %s %d", k+1, s.imgTags[k], op.K, op.ID)
+		path := filepath.Join(c.o.Scratch, fmt.Sprintf("crash-%d.dat", s.scen))
+		if err := os.WriteFile(path, img, 0644); err != nil {
+			fatal("write crash image: %v", err)
+		}
+		rc := &RealColl{Path: path}
+		r := rc.New(1, 0, 0, 0)
+		m1 := c.drv2.Send("disk " + hexW(img))
+		m2 := c.drv2.Send(fmt.Sprintf("new 1 0 0 0 %s", hexW([]byte(path))))
+		if m1 != "ok" || strings.Fields(m2)[0] != r {
+			s.tie("recovery ("+where+")", m2, r)
+			os.Remove(path)
+			return
+		}
+		if r != "ok" {
+			s.fail("C07", "recovery-failed", where+": reopening the file failed ("+r+")")
+			os.Remove(path)
+			continue
+		}
+		if ms, rs := c.drv2.Send("st"), rc.St(); ms != rs {
+			s.tie("recovered state ("+where+")", ms, rs)
+			rc.Close()
+			os.Remove(path)
+			return
+		}
+		s.res.TracesValidated++
+		// others intact, affected old-or-new
+		_, ids := rc.IDs()
+		have := map[uint64]bool{}
+		for _, id := range ids {
+			have[id] = true
+		}
+		for id, sd := range s.spec {
+			if id == op.ID {
+				continue
+			}
+			_, d := rc.Get(id)
+			if !docEq(d, sd, rc) {
+				s.fail("C07", "other-document-damaged", fmt.Sprintf("%s: document %d is not intact after recovery", where, id))
+			}
+		}
+		for id := range have {
+			if _, ok := s.spec[id]; !ok && id != op.ID {
+				s.fail("C07", "unexpected-document", fmt.Sprintf("%s: recovered collection lists id %d which was not live", where, id))
+			}
+		}
+		_, d := rc.Get(op.ID)
+		isOld := (prev == nil && d == nil) || docEq(d, prev, rc)
+		isNew := (now == nil && d == nil) || docEq(d, now, rc)
+		if !isOld && !isNew {
+			s.fail("C07", "neither-old-nor-new", fmt.Sprintf("%s: the affected document is in neither its pre- nor its post-operation state", where))
+		}
+		if isNew && !isOld {
+			s.res.Hit("recovered:new")
+		} else {
+			s.res.Hit("recovered:old")
+		}
+		sf := rc.C.VerifSpanFile()
+		if err := checkWellFormed(sf.VerifFileBytes(), sf.VerifIndex(), sf.VerifFreeMap()); err != nil {
+			sig := "recovered-file-malformed"
+			if strings.Contains(err.Error(), "active twice") {
+				sig = "zombie-span-after-recovery"
+			} else if strings.Contains(err.Error(), "bad magic 00000000") {
+				sig = "zero-tail-after-recovery"
+			}
+			s.fail("C07", sig, fmt.Sprintf("%s: the recovered file is not a well-formed chain: %v", where, err))
+		}
+		// continuation: (1) write a record larger than any tail, (2) remove the affected document,
+		// then close and reopen: nothing older may come back, nothing newer may be lost.
+		bigID := uint64(1<<40) + uint64(c.n)
+		vec := make([]float64, rc.Opt.DimensionCount)
+		bigMeta := genMeta(int64(c.n), 5000)
+		cm := c.drv2.Send(fmt.Sprintf("add %d %s %s", bigID, codesStr(rc.Codes(vec)), hexW(bigMeta)))
+		cr := rc.Add(bigID, vec, bigMeta)
+		if cm != cr {
+			s.tie("continuation add ("+where+")", cm, cr)
+		}
+		removed := false
+		if d != nil {
+			cm = c.drv2.Send(fmt.Sprintf("del %d", op.ID))
+			cr = rc.Del(op.ID)
+			if cm != cr {
+				s.tie("continuation remove ("+where+")", cm, cr)
+			}
+			removed = cr == "ok"
+		}
+		c.drv2.Send("close")
+		rc.Close()
+		r = rc.New(1, 0, 0, 0)
+		m2 = c.drv2.Send(fmt.Sprintf("new 1 0 0 0 %s", hexW([]byte(path))))
+		if strings.Fields(m2)[0] != r {
+			s.tie("second reopen ("+where+")", m2, r)
+		} else if r == "ok" {
+			if ms, rs := c.drv2.Send("st"), rc.St(); ms != rs {
+				s.tie("state after continuation and reopen ("+where+")", ms, rs)
+			}
+			if _, d2 := rc.Get(bigID); d2 == nil || !bytes.Equal(d2.Metadata, bigMeta) {
+				s.fail("C07", "record-lost-after-recovery", fmt.Sprintf("%s: a document written after recovery is gone after the next reopen", where))
+			}
+			if removed {
+				if _, d2 := rc.Get(op.ID); d2 != nil {
+					s.fail("C07", "old-version-resurrected", fmt.Sprintf("%s: the affected document was removed after recovery, yet the next reopen brings a version of it back", where))
+				}
+			}
+			for id, sd := range s.spec {
+				if id == op.ID {
+					continue
+				}
+				if _, d2 := rc.Get(id); !docEq(d2, sd, rc) {
+					s.fail("C07", "other-document-damaged", fmt.Sprintf("%s: document %d is not intact after continuation and reopen", where, id))
+				}
+			}
+			rc.Close()
+		} else {
+			s.fail("C07", "recovery-failed", where+": second reopen failed")
+		}
+		os.Remove(path)
+	}
+}
